@@ -736,17 +736,59 @@ class RegexWitness(Family):
 
 
 class CrossComponentInclude(Family):
+	"""A test include of ANOTHER component, for every rule set that has a cross-include rule (Rules.py validate_cross_includes:
+	default rules under tests/catapult/<component> and tests/int, plugin rules, extension rules). Stratified by the shape of the
+	file's include list (which kinds of includes the seeded one is sorted among)."""
 	name = 'includes:cross-component'
 
-	def candidates(self, lines, relpath):
+	@staticmethod
+	def rule_kind(relpath):
 		parts = relpath.split('/')
-		if 'tests' != parts[0] or len(parts) < 4 or 'catapult' != parts[1] or not relpath.endswith('.cpp'):
+		if not relpath.endswith('.cpp') or 'tests' not in parts[:-1]:
+			return None
+		if 'tests' == parts[0]:
+			if len(parts) >= 4 and 'catapult' == parts[1]:
+				return 'default:tests/catapult'
+			if len(parts) >= 3 and 'int' == parts[1]:
+				return 'default:tests/int'
+			return None
+		if parts[0] in ('plugins', 'sdk') and len(parts) >= 4:
+			return 'plugin'
+		if 'extensions' == parts[0] and len(parts) >= 4:
+			return 'extension'
+		return None
+
+	def candidates(self, lines, relpath):
+		if self.rule_kind(relpath) is None:
 			return []
-		return [index for index, line in enumerate(lines[:-1]) if line.startswith('#include "tests/')][-1:]
+		return [index for index, line in enumerate(lines[:-1]) if line.startswith('#include "')][-1:]
 
 	def apply(self, lines, site, rng):
-		other = 'zzzseeded'
-		return _insert(lines, site + 1, f'#include "tests/catapult/{other}/test/SeededUtils.h"'), {'group': 'cross_includes', 'lineno': None, 'kind': None}
+		kind = self.rule_kind(self.current_relpath)
+		include = {
+			'default:tests/catapult': '"tests/catapult/zzzseeded/test/SeededUtils.h"', 'default:tests/int': '"tests/catapult/zzzseeded/test/SeededUtils.h"',
+			'plugin': '"plugins/txes/zzzseeded/tests/test/SeededUtils.h"', 'extension': '"zzzseeded/tests/seededdir/SeededUtils.h"'}[kind]
+		return _insert(lines, site + 1, f'#include {include}'), {
+			'group': 'cross_includes', 'lineno': None, 'kind': None, 'seeded_line': f'#include {include}',
+			'classes': self.site_classes(lines, site, self.current_relpath)}
+
+	def site_classes(self, lines, site, relpath):
+		"""Rule set + the kinds of includes the file has (the seeded include is sorted among them and the rule walks the sorted list)."""
+		kinds = set()
+		for line in lines:
+			match = re.match(r'#include (["<])([^">]*)[">]', line)
+			if not match:
+				continue
+			parts = match.group(2).split('/')
+			if '<' == match.group(1):
+				kinds.add('system')
+			elif 1 == len(parts):
+				kinds.add('relative')
+			elif 2 == len(parts):
+				kinds.add(f'short:{parts[0]}')
+			else:
+				kinds.add(f'long:{parts[0]}' if parts[0] in ('catapult', 'tests', 'plugins', 'src', 'mongo', 'sdk') else 'long:other')
+		return [f'{self.rule_kind(relpath)} | ' + ' '.join(sorted(kinds))]
 
 
 class ForbiddenDependency(Family):
